@@ -17,7 +17,7 @@ import (
 
 // cpuHasDocumentedFeatures asks the CPU directly (not the library) for every feature the pinned selection
 // predicate of the accelerated amd64 path names.
-func cpuHasDocumentedFeatures() bool {
+func zvCpuHasDocumentedFeatures() bool {
 	return cpuid.CPU.Supports(cpuid.AVX512F, cpuid.AVX512DQ, cpuid.AVX512VL, cpuid.AVX, cpuid.GFNI, cpuid.SSE3, cpuid.SSE2, cpuid.VPCLMULQDQ)
 }
 
@@ -31,7 +31,7 @@ func cpuHasDocumentedFeatures() bool {
 // Argument shapes include the legal ones (disjoint, exactly overlapping, adjacent, long slices) and, for
 // completeness, partially overlapping dst/src, which the Block contract forbids: a panic there is fine.
 
-type pathPlan struct {
+type zvPathPlan struct {
 	ID    uint64 `json:"id"`
 	Op    string `json:"op"`
 	Shape string `json:"shape"`
@@ -51,16 +51,16 @@ func TestVtracePublicPaths(t *testing.T) {
 	var id uint64
 	emit := func(op, shape string) uint64 {
 		id++
-		data, _ := json.Marshal(&pathPlan{ID: id, Op: op, Shape: shape})
+		data, _ := json.Marshal(&zvPathPlan{ID: id, Op: op, Shape: shape})
 		f.Write(append(data, '\n'))
 		return id
 	}
-	if !asmDetected && !cpuHasDocumentedFeatures() {
+	if !zvAsmDetected && !zvCpuHasDocumentedFeatures() {
 		data, _ := json.Marshal(map[string]interface{}{"id": 0, "op": "not-applicable", "shape": "accelerated path not available on this CPU", "end": true})
 		f.Write(append(data, '\n'))
 		return
 	}
-	if !asmDetected {
+	if !zvAsmDetected {
 		// The README promises the constant-time implementation on amd64 CPUs with AVX512F and GFNI; this CPU reports
 		// every feature the pinned selection predicate names, and the library still does not select it. The
 		// workload runs all the same: whatever serves the public operations is what a user of this CPU gets.
@@ -198,7 +198,7 @@ func TestVtracePublicPaths(t *testing.T) {
 		}
 	}
 	id++
-	data, _ := json.Marshal(&pathPlan{ID: id, Op: "end", End: true})
+	data, _ := json.Marshal(&zvPathPlan{ID: id, Op: "end", End: true})
 	f.Write(append(data, '\n'))
 	vtMark(id)
 }
